@@ -14,6 +14,7 @@ from vf.gen import url as G
 from vf.gen.tokens import CORE, CLASS_OF
 from vf import contracts_quote as cq
 
+MIN_RANDOM = 150  # random iterations run per shard whatever the wall-clock budget (floors must not depend on machine load)
 SHARDS = {"quick": 4, "thorough": 16}
 BUDGET = {"quick": 22, "thorough": 240}
 MIN_CASES = {"quick": 20000, "thorough": 400000}
@@ -197,7 +198,7 @@ def run(ctx):
         ctx.freeze_outputs()
         n = 0
         lim = 2500 if ctx.tier == "quick" else 10 ** 7
-        while ctx.time_left() and n < lim:
+        while (ctx.time_left() or n < MIN_RANDOM) and n < lim:
             n += 1
             c = G.random_case(rng, max_tok=rng.choice([2, 4, 8]))
             do(c, "random", (rng.choice(["https", "http", "ftp"]),))
